@@ -545,6 +545,34 @@ def fam_lead(rng, n, tag="lead"):
         out.append(s)
     return out
 
+def fam_lead_wave(rng, n, tag="wave"):
+    """C15 gate: one peer alternates between ticking faster and slower than the other, so that its lead
+    (and the 30-frame average behind frames_ahead()) rises above the recommendation threshold, is held, and
+    falls again - with phase lengths varied so that the steps of the average land on every alignment with
+    the 60-frame recommendation interval.  Every WaitRecommendation must carry the frames_ahead() the
+    caller reads right after the call that raised it."""
+    out = []
+    for i in range(n):
+        lat = rng.choice([0, 10, 20, 50])
+        s = Scen("%s_%d" % (tag, i), players=2, window=rng.choice([8, 12]), lat=lat, seed=rng.randrange(1 << 30),
+                 fps=rng.choice([50, 60]), inputrun=rng.choice([1, 3]), expect=["nodisconnect"])
+        s.p2p(1, [0]); s.p2p(2, [1])
+        t = 0
+        end = 12000
+        s.ticks(2, 3, end, 16)
+        while t < end:
+            fast = rng.choice([10, 12, 13, 14])
+            d1 = rng.randrange(300, 1600)
+            s.ticks(1, t, min(end, t + d1), fast); t += d1
+            slow = rng.choice([18, 20, 22, 26, 32])
+            d2 = rng.randrange(200, 1400)
+            s.ticks(1, t, min(end, t + d2), slow); t += d2
+            if rng.random() < 0.5:
+                d3 = rng.randrange(100, 900)
+                s.ticks(1, t, min(end, t + d3), 16); t += d3
+        out.append(s)
+    return out
+
 def fam_ping(rng, n, tag="ping"):
     """C15: clean symmetric links with every one-way latency 0..=100 ms (boundaries of the 200 ms
     quality-report period included), fps 30/60/120, some with a slow handshake (loss of the first
